@@ -449,7 +449,7 @@ def execute(rec):
 def scenario(sid, rec, tags):
     try:
         events = execute(rec)
-    except Skip:
+    except (Skip, fem.TooLarge):
         events = []
     return {'id': sid, 'recipe': rec, 'tags': tags, 'events': events}
 
